@@ -489,3 +489,67 @@ func VP_C06_scan_boundaries() {
 	}
 	vp.Cover("end")
 }
+
+// unsigned length prefixes carry their whole range: 127, 128, 200 and 255
+// elements behind an UnsignedByte prefix, 32767, 32768 and 40000 behind an
+// UnsignedShort prefix (thorough), written and read back.
+func VP_C06_ary_unsigned_prefix() {
+	type cfg struct {
+		n     int
+		short bool
+	}
+	cfgs := []cfg{{127, false}, {128, false}, {200, false}, {255, false}, {300, true}, {32768, true}, {40000, true}}
+	c := cfgs[vp.Choice(5+2*vp.Tier())]
+	n := c.n
+	vp.SizeBound(4*n + 64)
+	vp.Unwind(n + 64)
+	vp.MaxSteps(900000000)
+	src := make([]Byte, n)
+	var ref []byte
+	if c.short {
+		ref = vpBE(uint64(n), 2)
+	} else {
+		ref = []byte{byte(n)}
+	}
+	for i := range src {
+		src[i] = Byte(i * 7)
+	}
+	src[0], src[n-1] = Byte(vp.Byte()), Byte(vp.Byte())
+	for i := range src {
+		ref = append(ref, byte(src[i]))
+	}
+	var dst []Byte
+	if c.short {
+		vpWriteBulk(Ary[UnsignedShort]{Ary: src}, ref)
+		vpReadBulk(Ary[UnsignedShort]{Ary: &dst}, ref)
+	} else {
+		vpWriteBulk(Ary[UnsignedByte]{Ary: src}, ref)
+		vpReadBulk(Ary[UnsignedByte]{Ary: &dst}, ref)
+	}
+	vp.Assert(len(dst) == n, "Ary round trip length (whatever the destination held before)")
+	for i := 0; i < n && i < len(dst); i++ {
+		vp.Assert(dst[i] == src[i], "Ary round trip value")
+	}
+	vp.Cover("end")
+}
+
+// an NBT field whose encoding failed (a value the encoder refuses after it has
+// produced some bytes) leaves nothing behind: the next NBT field is written as
+// its own bytes only, with the exact count.
+func VP_C06_nbtfield_history() {
+	vp.PoolMode(1)
+	type Bad struct {
+		A int32  `nbt:"a"`
+		S string `nbt:"s"`
+	}
+	var sink bytes.Buffer
+	_, err := NBT(Bad{A: 1, S: string(vp.Noise(40000))}).WriteTo(&sink)
+	vp.Assert(err != nil, "an unencodable value is refused")
+	x := vp.Int32()
+	ref := append([]byte{10, 3, 0, 1, 'a'}, vpBE(uint64(uint32(x)), 4)...)
+	ref = append(ref, 0)
+	vpCheckWrite(NBT(struct {
+		A int32 `nbt:"a"`
+	}{x}), ref)
+	vp.Cover("end")
+}
